@@ -4,6 +4,8 @@ sends and packet deliveries into a real pair with rekey_bytes=1 semantics
 sessions with tiny re-key limits whose wire bytes are decoded by the
 independent decoder."""
 
+import time as _time
+
 import asyncssh
 
 from harness.sshpair import Pair, NoAuthServer
@@ -14,7 +16,8 @@ KIND = {20: 'KEXINIT', 21: 'NEWKEYS', 30: 'KEXDH_INIT', 31: 'KEXDH_REPLY',
 
 
 class World:
-    def __init__(self, thresh_c, thresh_s):
+    def __init__(self, thresh_c, thresh_s, timer=()):
+        self.timer = tuple(timer)
         self.rx = {'c': [], 's': []}
         self.chan = {}
         w = self
@@ -75,6 +78,10 @@ class World:
             conn._rekey_bytes = (1 << 30) if t == 0 else 1 if t == 1 \
                 else 60 * (2 * t - 1)
             conn._rekey_bytes_sent = 0
+            # re-keying by time: sides in `timer` have a limit (it does not
+            # expire by itself during a replay: 'tick' makes it pass)
+            conn._rekey_seconds = 100000 if x in self.timer else 0
+            conn._rekey_time = _time.monotonic() + 100000
         self._seen = len(p.events)
         return self
 
@@ -98,6 +105,11 @@ class World:
         elif lbl[0] == 'recv':
             x = lbl[1]
             p.deliver(x, lambda t: t != 2)
+        elif lbl[0] == 'tick':
+            # rekey_seconds pass for every side that re-keys by time
+            for x, conn in (('c', p.conn), ('s', p.sconn)):
+                if x in self.timer:
+                    conn._rekey_time = _time.monotonic() - 1
         self._scan()
 
     def observe(self):
@@ -159,8 +171,8 @@ def model_obs(st):
     }
 
 
-def replay(steps, thresh_c, thresh_s):
-    w = World(thresh_c, thresh_s).start()
+def replay(steps, thresh_c, thresh_s, timer=()):
+    w = World(thresh_c, thresh_s, timer).start()
     res = {'diverged': None, 'l1': [], 'script': []}
     try:
         base = None
@@ -168,6 +180,10 @@ def replay(steps, thresh_c, thresh_s):
             w.do(lbl)
             res['script'].append(lbl)
             got = w.observe()
+            if st is None:              # blind replay of a stored script
+                if got['err']:
+                    break
+                continue
             want = model_obs(st)
             if base is None:
                 # session set-up emitted packets before the modelled part
